@@ -271,3 +271,9 @@ Theorem C01_calls_and_variables_example :
   (exists s', sgo_call 200 sx_prog "Sum" [LitV (LitInt 3); LitV (LitInt 2)] = Some (LitV (LitInt 10), s')).
 Proof. exact sx_prog_accepted_and_returns. Qed.
 Print Assumptions C01_calls_and_variables_example.
+
+(* ... and Go's result (value and store) in that fragment does not depend on the fuel *)
+Theorem C01_calls_and_variables_go_result_independent_of_fuel : forall P f args n m x y,
+  sgo_call n P f args = Some x -> sgo_call m P f args = Some y -> x = y.
+Proof. exact sgo_call_fuel_irrelevant. Qed.
+Print Assumptions C01_calls_and_variables_go_result_independent_of_fuel.
